@@ -430,6 +430,38 @@ def snr_instance(shape, axis=None, given_current=False):
                     scales=SCALES)
 
 
+def sisdr_range_bounded_instance():
+    """si_sdr over its whole useful range: nearly loss-less estimates (100 .. 170 dB: a float32 round trip, two implementations of
+    one filter) next to poor ones, long signals, leading axes -- against the defining ratio evaluated with the residual formed
+    explicitly, and the rescaling invariances.  (In exact arithmetic every algebraic rearrangement of the ratio is the same number, so
+    the deductive obligations cannot see a cancellation-prone one; this family can.)"""
+    from pb_bss.evaluation.module_si_sdr import si_sdr
+
+    def make(B):
+        return {'level': B.choose('level', [-1, -2, -3, -4, -5, -6, -7, -8]), 'T': B.choose('T', [50, 1000, 16000]), 'lead': B.choose('lead', [(), (3,), (2, 2)]),
+                'seed': B.choose('seed', list(range(3000))), 'd': B.given('d', np.zeros(1))}
+
+    def call(inp):
+        rng = np.random.RandomState(inp['seed'])
+        lead, T = tuple(inp['lead']), inp['T']
+        ref = rng.normal(size=lead + (T,))
+        est = ref * rng.uniform(0.5, 2.0, size=lead + (1,)) + 10.0 ** inp['level'] * rng.normal(size=lead + (T,))
+        c = 10.0 ** rng.uniform(-3, 3)
+        return {'v': np.asarray(si_sdr(ref, est)), 'v_est_scaled': np.asarray(si_sdr(ref, c * est)), 'v_ref_scaled': np.asarray(si_sdr(c * ref, est)),
+                'ref': ref, 'est': est}
+
+    def ensures(sp, inp, out):
+        ref, est = out['ref'], out['est']
+        alpha = np.sum(est * ref, axis=-1, keepdims=True) / np.sum(ref * ref, axis=-1, keepdims=True)
+        want = 10 * np.log10(np.sum((alpha * ref) ** 2, axis=-1) / np.sum((est - alpha * ref) ** 2, axis=-1))
+        tol = 1e-4 if inp['level'] > -7 else 1e-2          # dB; the defining residual itself carries a relative rounding error of 1e-16 |s| / |residual|
+        yield 'equals-the-defining-ratio[level=1e%d]' % inp['level'], bool(np.shape(out['v']) == np.shape(want) and np.allclose(out['v'], want, rtol=0, atol=tol))
+        yield 'invariant-to-rescaling-of-the-estimate', bool(np.allclose(out['v_est_scaled'], out['v'], rtol=0, atol=10 * tol))
+        yield 'invariant-to-rescaling-of-the-reference', bool(np.allclose(out['v_ref_scaled'], out['v'], rtol=0, atol=10 * tol))
+
+    return Instance('C19', F_SISDR, 'bounded-from-poor-to-nearly-lossless-estimates', make, call, ensures, mode='bounded', bounded_n=120, frame=False)
+
+
 def instances(tier):
     th = tier == 'thorough'
     out = []
@@ -499,4 +531,4 @@ _instances_before_simplex = instances
 
 def instances(tier):       # noqa: F811
     from .common import simplex_lemma_instances
-    return _instances_before_simplex(tier) + simplex_lemma_instances('C19')
+    return _instances_before_simplex(tier) + [sisdr_range_bounded_instance()] + simplex_lemma_instances('C19')
